@@ -99,7 +99,8 @@ impl Slicing {
             .map(Variable::into_int)
             .transpose()
             .unwrap()
-            .map(|i| i as isize);
+            // every bound below -len selects the same elements; keep it negatable
+            .map(|i| (i as isize).max(-isize::MAX));
         Ok(start)
     }
 }
